@@ -1,8 +1,18 @@
 package main
 
 import (
+	"os"
+
 	"verif/c03"
+	"verif/c16"
 	"verif/core"
 )
 
-func main() { core.Main("C03", "model_checking", c03.Run) }
+func main() {
+	// confirm mode: re-run ONE suspect render alone (the parent enforces the deadline)
+	if p := os.Getenv("VERIF_CONFIRM"); p != "" {
+		c16.ConfirmMain(p, c03.RegisterCustom)
+		return
+	}
+	core.Main("C03", "model_checking", c03.Run)
+}
